@@ -125,6 +125,33 @@ CLAIMED = {
    note="partial claim: table sweep outside; np.interp is an exact semantic model over the concrete node arrays",
    technique="symbolic execution of the real loader on z3 Real proxies + SMT validity; fork-tree model of numpy.interp; CrossHair on fix_number",
    ref='4/C07'),
+
+ 'C05': dict(
+   text=("(a) Xray.scattering_factors is executed with a symbolic energy on real elements (fork-tree model of numpy.interp over the "
+         "loaded table) and proven equal to the linear interpolation of an independent reading of the .nff file, NaN outside; "
+         "(b) xray_sld, Xray.sld and index_of_refraction are proven equal to the documented formulas for symbolic counts, "
+         "density, masses and uninterpreted per-element scattering-factor functions of the energy (energy/wavelength agreement, "
+         "vector vs scalar, linearity in density, isotope independence); (c) mirror_reflectivity is proven to lie in [0,1] for "
+         "an arbitrary complex refractive index over complex-sqrt / sin-cos / exp contracts; (d) f0 symbol resolution by CrossHair."),
+   note="quick: 14-node windows around absorption edges of 4 elements, thorough: 60-node windows of 14 elements and two whole tables; NaN-endpoint segments and doubled edge energies excluded; one known finding (si.nff row order)",
+   technique="symbolic execution of the real Python functions on z3 Real/complex proxies + SMT (QF_NRA/QF_UFNRA) validity queries; CrossHair for the symbol logic",
+   ref='4/C05'),
+ 'C18': dict(
+   text=("The real Sequence / Molecule / _code_average run with the code tables temporarily holding residues of symbolic "
+         "composition, volume and charge: formula atoms, cell volume, charge, masses and density are proven to be the sums over "
+         "the residue multiset for every listed code string (spaces, '*' terminator, all permutations), ambiguity codes to be "
+         "equal-weight averages, the aa:/dna:/rna: prefixes to agree; read_fasta and the file-type guess are searched by CrossHair."),
+   note="code strings of length <= 4 over <= 3 codes; CrossHair on read_fasta is a counterexample finder ('Not confirmed' on the unchanged tree)",
+   technique="symbolic execution of the real Python classes on z3 Real proxies + SMT validity; CrossHair on the line parser",
+   ref='4/C18'),
+ 'C20': dict(
+   text=("Partial: the magnetic form-factor methods and the Cromer-Mann evaluator run on symbolic coefficient sets and symbolic "
+         "Q (scalar and vector) and are proven equal to A exp(-a s^2)+B exp(-b s^2)+C exp(-c s^2)+D (times s^2 for n>0) with "
+         "s = Q/4pi, with the Q=0 limits for all coefficients and NaN beyond the fitted range. Which table row is attached to "
+         "which element/ion is outside (finite association, no symbolic variable); shipped-table limits are reported as ground facts."),
+   note="partial claim; exp axiomatised (oracle reuses the code's applications)",
+   technique="symbolic execution of the real Python functions through numpy on z3 Real proxies + SMT validity",
+   ref='4/C20'),
 }
 
 NOT_APPLICABLE = [
